@@ -1197,6 +1197,10 @@ var evaluationFuncs = map[operationKey]*evaluationFnInfo{
 				return emptyResultContainer, &ErrSide{error: err, IsRight: true}
 			}
 
+			if right == 0 {
+				return emptyResultContainer, &ErrSide{error: errIntegerDivideByZero, IsRight: true}
+			}
+
 			return resultContainer{DurationValue: left / time.Duration(right), IsDurationValue: true}, nil
 		},
 		returnType: ast.TDuration,
